@@ -688,7 +688,7 @@ def FcaExact (t : Table) (exts : List (List Nat)) : Prop :=
   exts.Nodup ∧ ∀ E, E ∈ exts ↔ ∃ B, Spec.isConcept t E B = true
 
 theorem mapFromObjects_fix (K : MVCtx) (exts : List (List Nat)) (h : ∀ E ∈ exts, K.clSpec E = E) :
-    MVCtx.mapFromObjects K exts = .ok (exts.map fun E => ⟨E, K.intentionI E⟩) := by
+    MVCtx.mapFromObjects K false exts = .ok (exts.map fun E => ⟨E, K.intentionI E⟩) := by
   induction exts with
   | nil => rfl
   | cons E Es ih =>
